@@ -83,7 +83,7 @@ def check(ctx):
                       "route sets, claimed resources and both thresholds varied per op",
                       ASSUME, extra_bins=["roaobj"], extra_stream=roaobj,
                       # body of Roas::mode regenerated from the source; C01Src: generated definition = model function
-                      translate=[("pure_fns:C01", "PureFns.lean")], extra_modules=["KrillModel.Props.C01Src"],
+                      translate=[("pure_fns:C01", "PureFnsC01.lean")], extra_modules=["KrillModel.Props.C01Src"],
                       also_judge=rptree)
 
 
